@@ -168,13 +168,15 @@ structure StructCfg where
   outer : RM := []                    -- SetRule(rm): `validOnlyOuterObj`
   fns : FnTables := {}
 
-/-- `ToStr(iter.Key())` / index rendering for paths -/
-def keyStr : GoVal → M Bytes
+/-- `ToStr(iter.Key())`: the key is handed over as a `reflect.Value`, so it is rendered by
+`fmt.Sprintf("%v", key)`: strings as they are, integers in decimal, bools as words; every other key
+kind (floats, arrays, structs, pointers …) is the residual `sprint` -/
+def keyStr (ext : Ext) : GoVal → M Bytes
   | .str s => pure s
   | .int _ z => pure (intToBytes z)
   | .uint _ n => pure (natToBytes n)
   | .bool v => pure (if v then b! "true" else b! "false")
-  | _ => throw (.unmodelled "map key kind")
+  | k => sprintExt ext k
 
 /-- "empty" as `required` sees a struct field: zero value, or a slice / array / map of length 0 -/
 def requiredEmpty (v : GoVal) : Bool :=
@@ -330,7 +332,7 @@ def entriesLoop (cfg : StructCfg) (pathOpen : Bytes) (es : Entries) (st : WSt) :
   match es with
   | .nil => pure (st.mark 2)
   | .cons k v rest => do
-    let ks ← keyStr k
+    let ks ← keyStr cfg.ext k
     let st1 ← validate cfg (pathOpen ++ ks ++ [93]) v true (st.mark 1)
     entriesLoop cfg pathOpen rest st1
 end
